@@ -272,6 +272,22 @@ func TestC04(t *testing.T) {
 			c.c04Program(s, "rand-reentrant-recursion", src, true, "reentrant-recursion")
 		})
 
+		// arguments and results are passed as they are, whatever they are: arrays and objects that contain themselves
+		// go through parameters, returns, closures and containers of arguments like any other value
+		c.Sub("self-containing-arguments", func(s *Sub) {
+			P, V, F, R := bn.KwPrint, bn.KwVar, bn.KwFun, bn.KwReturn
+			prelude := V + " cyc = [1, 2];\ncyc[0] = cyc;\n" + V + " cyo = {k: 1};\ncyo.me = cyo;\n" + V + " mix = [cyo];\ncyo.list = mix;\n" +
+				F + " size(x) { " + R + " " + bn.BLen + "(x); }\n" + F + " same(x) { " + R + " x; }\n" + F + " second(a, b) { " + R + " b; }\n" + F + " keep(x) { " + F + " get() { " + R + " x; } " + R + " get; }\n" +
+				F + " poke(x) { x[1] = 9; " + R + " x[1]; }\n" + F + " name(o) { " + R + " o.k; }\n"
+			uses := []string{P + " size(cyc);", P + " same(cyc) == cyc;", P + " second(cyc, 5);", P + " second(5, cyc)[1];", P + " keep(cyc)()[1];", P + " poke(cyc);\n" + P + " cyc[1];", P + " name(cyo);", P + " name(same(cyo).me.me);",
+				P + " size(mix);", P + " second(cyo, mix)[0].k;", P + " size([cyc, cyc]);", P + " same(same)(cyo).k;", P + " second(cyc, cyo, 1);", P + " name(cyc);", P + " size(cyo);", P + " same(cyc);"}
+			for i, u := range uses {
+				if c.Mine(int64(i)) {
+					c.c04Program(s, "self-containing-arguments", prelude+P+" \"start\";\n"+u+"\n"+P+" \"end\";\n", true, "self-containing-argument")
+				}
+			}
+		})
+
 		// nil unless a ফেরত ran: the last thing a body did may have been anything — an assignment, a call that
 		// returned something, a bare value, a declaration — at any depth of nesting, and an unused ফেরত may sit on
 		// another path; the call's value is printed, compared with nil, stored and passed on
